@@ -44,12 +44,6 @@ func (inv execInvocation) GobEncode() ([]byte, error) {
 		b   bytes.Buffer
 		enc = gob.NewEncoder(&b)
 	)
-	// An environment that is transported is always frozen: the receiver
-	// must reproduce the sender's compilation, not amend it with its own
-	// view of the world (e.g. which cache files exist when it compiles).
-	// The copies of the invocation held by tasks are taken before the
-	// driver freezes its own.
-	inv.Env.Freeze()
 	for _, field := range inv.directEncodedFields() {
 		if err := enc.Encode(field.ptr); err != nil {
 			return nil, fmt.Errorf("encoding %s: %v", field.name, err)
